@@ -299,7 +299,9 @@ def run_case(spec):
         q.kwargs = dict(p.kwargs)
         vecs = list(q.kwargs["subspace_eigenvectors"])
         b = int(rng.integers(0, len(vecs)))
-        how = str(rng.choice(["scale", "mix", "tilt", "swap_left"])) if not p.hermitian else str(rng.choice(["scale", "mix", "tilt"]))
+        how = str(rng.choice(["scale", "mix", "tilt", "swap_left", "one_overlap", "one_overlap"])) if not p.hermitian else str(rng.choice(["scale", "mix", "tilt"]))
+        if how == "one_overlap" and (p.N < 2 or p.exact):
+            how = "scale"
         if how == "tilt" and len(vecs) < 2:
             how = "scale"
         variant = how
@@ -345,7 +347,20 @@ def run_case(spec):
             Lswap = np.hstack([_arr(v[0] if q == b else v[1]) for q, v in enumerate(vecs)])
             if how == "swap_left" and np.allclose(Lswap.conj().T @ Rall, np.eye(Rall.shape[1]), atol=1e-9):
                 how = variant = "scale"  # (R_b, R_b) happens to be biorthonormal with the rest: a valid basis
-            if how == "swap_left":
+            if how == "one_overlap":
+                # exactly ONE entry of L^dagger R deviates from the identity, strictly below or above the diagonal:
+                # left vector c1 gets a component along left vector c2 (overlap (c1, c2) = 0.3), all other overlaps intact
+                owner = np.repeat(np.arange(len(vecs)), [np.shape(v[0])[1] for v in vecs])
+                c1, c2 = (int(x) for x in rng.choice(len(owner), size=2, replace=False))
+                Lall = np.hstack([_arr(v[1]) for v in vecs])
+                newcol = Lall[:, c1] + 0.3 * Lall[:, c2]
+                b1 = int(owner[c1])
+                k1 = c1 - int(np.flatnonzero(owner == b1)[0])
+                Lb1 = _arr(vecs[b1][1]).copy()
+                Lb1[:, k1] = newcol
+                vecs[b1] = (vecs[b1][0], Lb1 if np.iscomplexobj(vecs[b1][1]) or np.iscomplexobj(newcol) and np.abs(newcol.imag).max() > 0 else Lb1.real)
+                how = variant = f"one_overlap {'below' if c1 > c2 else 'above'} the diagonal, {'same' if owner[c1] == owner[c2] else 'different'} block"
+            elif how == "swap_left":
                 vecs[b] = (Rb, Rb)  # left vectors replaced by the right ones: not biorthogonal
             else:
                 vecs[b] = (damage(Rb, vecs[ob][0][:, 0] if len(vecs) > 1 else None), Lb)
